@@ -4,7 +4,6 @@ import (
 	"fmt"
 	"os"
 	"path/filepath"
-	"regexp"
 	"sort"
 	"strings"
 )
@@ -33,73 +32,100 @@ type raceReport struct {
 	Harness          bool
 }
 
-var reFrame = regexp.MustCompile(`(?m)^  (\S.*)\(\)\n      (\S+):(\d+)`)
-
-// harnessFrame reports whether an access site belongs to the simulator.
-//
-//go:norace
-func harnessFrame(fn string) bool {
-	return strings.HasPrefix(fn, "verifsim.") || strings.Contains(fn, ".Sim") || strings.HasPrefix(fn, "testing") ||
-		strings.HasPrefix(fn, "reflect.") || fn == "?"
-}
-
 //go:norace
 func parseRaceReports(text string) []raceReport {
+	// one pass over the lines (the log of a long run is tens of megabytes of
+	// reports about the simulator's own bookkeeping)
 	var out []raceReport
-	for _, blk := range strings.Split(text, "==================") {
-		if !strings.Contains(blk, "WARNING: DATA RACE") {
-			continue
-		}
-		// sections: "<Read|Write> at ... by goroutine N:" and "Previous <read|write> at ... by goroutine M:"
-		secs := regexp.MustCompile(`(?m)^(Read|Write|Previous read|Previous write|Atomic read|Atomic write|Previous atomic read|Previous atomic write) at `).FindAllStringIndex(blk, -1)
-		var acc []string
-		harness := false
-		for i, loc := range secs {
-			end := len(blk)
-			if i+1 < len(secs) {
-				end = secs[i+1][0]
-			}
-			sec := blk[loc[0]:end]
-			if j := strings.Index(sec, "\nGoroutine "); j > 0 {
-				sec = sec[:j]
-			}
-			kind := strings.ToLower(strings.TrimPrefix(strings.SplitN(sec, " at ", 2)[0], "Previous "))
-			fn := "?"
-			owner := ""
-			for _, m := range reFrame.FindAllStringSubmatch(sec, -1) {
-				// the access site is the first frame outside the runtime
-				// (map and slice helpers, atomics)
-				if strings.HasPrefix(m[1], "runtime.") || strings.HasPrefix(m[1], "sync/atomic.") || strings.HasPrefix(m[1], "internal/") {
-					continue
-				}
-				if fn == "?" {
-					fn = strings.TrimPrefix(m[1], "massnet.org/mass-wallet/")
-					fn = fmt.Sprintf("%s (%s:%s)", fn, filepath.Base(m[2]), m[3])
-				}
-				// whose access it is: the innermost frame of the simulator or
-				// of the wallet decides (library code runs on behalf of one of them)
-				if owner == "" {
-					switch {
-					case strings.HasPrefix(m[1], "massnet.org/mass-wallet/masswallet/db/ldb.") || strings.HasPrefix(m[1], "massnet.org/mass-wallet/masswallet/db."):
-						// the store's own code: whoever called it owns the access
-					case strings.HasPrefix(m[1], "verifsim.") || strings.Contains(m[1], ".Sim") || strings.HasPrefix(m[1], "testing"):
-						owner = "sim"
-					case strings.HasPrefix(m[1], "massnet.org/mass-wallet/"):
-						owner = "wallet"
-					}
-				}
-			}
-			if owner != "wallet" {
-				harness = true
-			}
-			acc = append(acc, kind+" in "+fn)
-		}
-		if len(acc) < 2 {
-			continue
-		}
-		sort.Strings(acc)
-		out = append(out, raceReport{Access1: acc[0], Access2: acc[1], Text: blk, Harness: harness})
+	type access struct {
+		kind, fn, owner string
 	}
+	var acc []access
+	var cur *access
+	var blk []string
+	inReport, inAccess := false, false
+	flush := func() {
+		if inReport && len(acc) >= 2 {
+			harness := false
+			var keys []string
+			for _, a := range acc[:2] {
+				if a.owner != "wallet" {
+					harness = true
+				}
+				keys = append(keys, a.kind+" in "+a.fn)
+			}
+			sort.Strings(keys)
+			r := raceReport{Access1: keys[0], Access2: keys[1], Harness: harness}
+			if !harness {
+				r.Text = strings.Join(blk, "\n")
+			}
+			out = append(out, r)
+		}
+		acc, cur, blk, inReport, inAccess = nil, nil, nil, false, false
+	}
+	lines := strings.Split(text, "\n")
+	for li := 0; li < len(lines); li++ {
+		l := lines[li]
+		if strings.HasPrefix(l, "==================") {
+			flush()
+			continue
+		}
+		if strings.HasPrefix(l, "WARNING: DATA RACE") {
+			inReport = true
+		}
+		if !inReport {
+			continue
+		}
+		if len(blk) < 70 {
+			blk = append(blk, l)
+		}
+		if l == "" {
+			inAccess = false
+			continue
+		}
+		if l[0] != ' ' {
+			// section header
+			inAccess = false
+			low := strings.ToLower(l)
+			for _, k := range []string{"previous atomic write", "previous atomic read", "previous write", "previous read", "atomic write", "atomic read", "write", "read"} {
+				if strings.HasPrefix(low, k+" at ") {
+					acc = append(acc, access{kind: strings.TrimPrefix(k, "previous "), fn: "?"})
+					cur = &acc[len(acc)-1]
+					inAccess = true
+					break
+				}
+			}
+			continue
+		}
+		if !inAccess || cur == nil || !strings.HasPrefix(l, "  ") || strings.HasPrefix(l, "      ") {
+			continue
+		}
+		fn := strings.TrimSuffix(strings.TrimSpace(l), "()")
+		if strings.HasPrefix(fn, "runtime.") || strings.HasPrefix(fn, "sync/atomic.") || strings.HasPrefix(fn, "internal/") {
+			continue
+		}
+		if cur.fn == "?" {
+			loc := ""
+			if li+1 < len(lines) {
+				f := strings.Fields(lines[li+1])
+				if len(f) > 0 {
+					loc = filepath.Base(f[0])
+				}
+			}
+			cur.fn = fmt.Sprintf("%s (%s)", strings.TrimPrefix(fn, "massnet.org/mass-wallet/"), loc)
+		}
+		if cur.owner == "" {
+			switch {
+			case strings.HasPrefix(fn, "massnet.org/mass-wallet/masswallet/db/ldb.") || strings.HasPrefix(fn, "massnet.org/mass-wallet/masswallet/db."):
+				// the store's own code: whoever called it owns the access
+			case strings.HasPrefix(fn, "verifsim.") || strings.Contains(fn, ".Sim") || strings.HasPrefix(fn, "testing"):
+				cur.owner = "sim"
+			case strings.HasPrefix(fn, "massnet.org/mass-wallet/"):
+				cur.owner = "wallet"
+			}
+		}
+	}
+	flush()
 	return out
 }
 
